@@ -70,7 +70,7 @@ def shards(tier: str, seed: int) -> list[dict[str, Any]]:
 def required_reach(tier: str) -> dict[str, int]:
     return {"alive.phase.before-ack": 20, "alive.phase.blocked-in-read": 20, "alive.phase.idle": 20, "data-before-ack": 20, "split.in-header": 50, "split.header-address": 10,
             "split.in-payload": 50, "bytewise": 10, "coalesced-frames": 20, "write.acked": 500, "write.ack-timeout": 20, "read.delivered": 500, "read.timeout": 50,
-            "error-word.surfaced": 20, "short-frame": 20, "status-word": 10, "ack_timeout.100": 20, "ack_timeout.1000": 20, "ack_timeout.5000": 20, "histories": 1000}
+            "error-word.surfaced": 20, "short-frame": 20, "status-word": 10, "ack_timeout.100": 20, "ack_timeout.1000": 20, "ack_timeout.5000": 20, "histories": 1000, "concurrent-writers": 20}
 
 
 def spec_frame(sc: dict[str, Any], spec: list[Any], req: bytes | None) -> tuple[bytes, str]:
@@ -532,6 +532,8 @@ def run(ctx: Any, params: dict[str, Any]) -> None:
                     return
         return
     for i in range(params["n"]):
+        if i % 25 == 0:
+            concurrent_writers(ctx, rng)
         sc = base_scenario(rng)
         uid = [0]
         ops: list[dict[str, Any]] = []
@@ -571,11 +573,62 @@ def run(ctx: Any, params: dict[str, Any]) -> None:
             break
 
 
+async def _concurrent_writers(sc: dict[str, Any], latency: float) -> list[Any]:
+    from gallia.transports.hsfz import HSFZTransport
+
+    loop = asyncio.get_running_loop()
+
+    def factory(n: int) -> gateway.Gateway:
+        g = gateway.Gateway(split_client)
+
+        def on_frame(now: float, f: bytes) -> None:
+            if f[4:6] == b"\x00\x01":
+                g.send(latency, fr(0x02, bytes([sc["src"], sc["dst"]]) + f[8:][:5]), "ACK", header_len=6)
+
+        g.on_client_frame = on_frame
+        return g
+
+    with gateway.GatewayHub(factory):
+        tr = await HSFZTransport.connect(uri(sc), timeout=2.0)
+
+        async def w(data: bytes) -> Any:
+            t0 = loop.time()
+            try:
+                await tr.write(data, timeout=None)
+                return ("ok", loop.time() - t0)
+            except BaseException as e:
+                return ("exc", type(e).__name__, loop.time() - t0)
+
+        res = list(await asyncio.gather(w(bytes.fromhex("22f190aa")), w(bytes.fromhex("22f191bb")), w(bytes.fromhex("22f192cc"))))
+        await tr.close()
+    return res
+
+
+def concurrent_writers(ctx: Any, rng: random.Random) -> None:
+    """three tasks write on one connection at once; the gateway acks each message `latency` after receiving it, i.e. within the ack timeout
+    of that message: every write must complete (time spent queued behind another writer does not count against the ack timeout)"""
+    sc = base_scenario(rng)
+    latency = round(sc["ack_timeout"] / 1000 * rng.choice([0.45, 0.7, 0.95]), 4)
+    ctx.case(("concurrent-writers", repr(sc), latency))
+    ctx.reach("concurrent-writers")
+    try:
+        res = vtime.run(_concurrent_writers(sc, latency))
+    except vtime.Deadlock:
+        ctx.violation("write/concurrent-writers/blocks-forever", "concurrent writes on one connection never complete", {"scenario": sc, "latency": latency})
+        return
+    if any(r[0] != "ok" for r in res):
+        ctx.violation("write/concurrent-writers/acked-but-fails", "a write that was acked within the ack timeout of its own transmission failed because it had queued behind another writer",
+                      {"scenario": sc, "latency": latency, "results": res})
+
+
 def replay(ctx: Any, witness: dict[str, Any]) -> None:
     import gallia.command  # noqa: F401
 
     vtime.quiet_logging()
     sc = witness["scenario"]
+    if "latency" in witness:
+        concurrent_writers(ctx, random.Random(0))
+        return
     for o in sc["ops"]:
         for key in ("react", "arrive"):
             if key in o:
